@@ -295,7 +295,7 @@ def parent_block(st):
     return None
 
 
-def guards(st, stop=None):
+def guards(st, stop=None, asserts=True):
     """Conditions known to hold whenever statement `st` starts executing,
     derived from the block structure: [(test expr, polarity)].
 
@@ -321,7 +321,7 @@ def guards(st, stop=None):
                         block_always_leaves(prev.orelse) and \
                         not block_always_leaves(prev.body):
                     out.append((prev.test, True))
-                elif isinstance(prev, ast.Assert):
+                elif isinstance(prev, ast.Assert) and asserts:
                     out.append((prev.test, True))
             if isinstance(p, ast.If):
                 out.append((p.test, field == "body"))
